@@ -22,10 +22,31 @@ def exec_events(family, events, procs=NCPU):
     ctx = mp.get_context("fork")
     with ctx.Pool(procs) as pool:
         outs = pool.map(_exec_chunk, [(family, c) for c in chunks])
-    for c, o in zip(chunks, outs):
+    for k, (c, o) in enumerate(zip(chunks, outs)):
         for e, x in zip(c, o):
             e["out"] = x
+            e["_chunk"] = k
     return events
+
+
+def confirm_events(family, events, suspects):
+    """A deterministic library reproduces a real mismatch.  Every chunk that contains a suspect event is executed again, whole and in the
+    same order (so that process-wide state left by earlier events is re-created), in a fresh process; returns the ids whose outcome recurs."""
+    by_chunk = {}
+    for e in events:
+        by_chunk.setdefault(e.get("_chunk"), []).append(e)
+    want = sorted({e["_chunk"] for e in events if e["id"] in suspects})
+    if not want:
+        return set()
+    ctx = mp.get_context("fork")
+    confirmed = set()
+    with ctx.Pool(min(NCPU, len(want)), maxtasksperchild=1) as pool:
+        outs = pool.map(_exec_chunk, [(family, [dict(case=e["case"], opts=e.get("opts")) for e in by_chunk[k]]) for k in want], chunksize=1)
+    for k, o in zip(want, outs):
+        for e, x in zip(by_chunk[k], o):
+            if e["id"] in suspects and json.dumps(x) == json.dumps(e["out"]):
+                confirmed.add(e["id"])
+    return confirmed
 
 
 class Result:
@@ -83,12 +104,16 @@ def trace_stage(res, prop, family, driver_module, trace_module, n, strict_overri
     res.transitions += st["trace_states"]
     nt = 0
     seen = set()
+    suspects = {e["id"] for e in events if verdicts[e["id"]][0] not in ("ok", "unspec")}
+    confirmed = confirm_events(family, events, suspects)
+    if suspects - confirmed:
+        res.extra.setdefault("transient", []).append({"stage": "trace", "events_not_reproduced": len(suspects - confirmed)})
     for e in events:
         v, exp = verdicts[e["id"]]
         h = short_hash(e["case"])
         if v == "unspec":
             res.unspec += 1
-        elif v != "ok":
+        elif v != "ok" and e["id"] in confirmed:
             res.bad.append({"case": e["case"], "opts": e.get("opts"), "expected": exp, "observed": e["out"], "verdict": v,
                             "binding": "B:code->tlc", "family": family})
         if h not in seen and pv.nontrivial(prop, e["case"]):
@@ -153,6 +178,34 @@ def finish(res, level_text, rule, assumptions, wall, exhaustive=True):
     print(f"{prop} [{TIER}] states={res.states} evaluations={res.evaluations} nontrivial={res.nontrivial} "
           f"out_of_claim={res.unspec} known={sum(v[1] for v in known.values())} violations={len(printed)} wall={wall}s")
     return 1 if violations else 0
+
+
+def _regen(args):
+    module, seed, per, prop = args
+    return importlib.import_module("harness." + module).generate_and_run(seed, per, prop)
+
+
+def _confirm_programs(res, module, prop, per, shards, byid, needs_confirmation):
+    """Mismatches found by the trace validator are confirmed by generating and running the shard again in a fresh process (the drivers are
+    deterministic): a mismatch whose recorded observation does not recur is dropped and counted as transient."""
+    mine = [b for b in res.bad if b.get("binding") == "B:code->tlc" and "steps" in b and needs_confirmation(b) and "_pid" in b]
+    if not mine:
+        return
+    want = sorted({b["_pid"] // 100000 for b in mine})
+    ctx = mp.get_context("fork")
+    with ctx.Pool(min(NCPU, len(want)), maxtasksperchild=1) as pool:
+        again = dict(zip(want, pool.map(_regen, [(module, SEED * 1000 + k, per, prop) for k in want], chunksize=1)))
+    dropped = 0
+    for b in mine:
+        k, i = b["_pid"] // 100000, b["_pid"] % 100000
+        p2 = again[k][i]
+        st = b["_step"]
+        same = st <= len(p2["rec"]) and json.dumps(p2["steps"][:st]) == json.dumps(b["steps"]) and json.dumps(p2["rec"][st - 1]) == json.dumps(byid[b["_pid"]]["rec"][st - 1])
+        if not same:
+            res.bad.remove(b)
+            dropped += 1
+    if dropped:
+        res.extra.setdefault("transient", []).append({"stage": "program traces", "mismatches_not_reproduced": dropped})
 
 
 # ------------------------------------------------------------------ heap machine stages (C06, C10)
@@ -227,8 +280,9 @@ def heap_trace_stage(res, prop, n, shards=NCPU, timeout=900):
                 pr = byid[v[1]]
                 res.bad.append({"steps": pr["steps"][:v[2]], "opts": pr["opts"], "handle": v[3], "verdict": v[4], "expected": v[5], "mech": v[6],
                                 "observed": pr["rec"][v[2] - 1]["res"] if v[3] == 0 else pr["rec"][v[2] - 1]["obs"][v[3] - 1] if v[3] <= len(pr["rec"][v[2] - 1]["obs"]) else None,
-                                "stale": v[4] == "known", "mech_match": v[4] == "known", "binding": "B:code->tlc", "family": "heap"})
+                                "stale": v[4] == "known", "mech_match": v[4] == "known", "binding": "B:code->tlc", "family": "heap", "_pid": v[1], "_step": v[2]})
             os.remove(path)
+    _confirm_programs(res, "drivers_heap", prop, per, shards, byid, lambda b: not (b.get("stale") and b.get("mech_match")))
     nsteps = sum(len(p["steps"]) for p in byid.values())
     res.states += states
     res.transitions += states
@@ -381,8 +435,9 @@ def hash_trace_stage(res, prop, n, shards=NCPU, timeout=900):
                 rec = pr["rec"][v[2] - 1]
                 res.bad.append({"steps": pr["steps"][:v[2]], "opts": pr["opts"], "handle": v[3], "verdict": v[4], "expected": v[5],
                                 "observed": rec["res"] if v[3] == 0 else rec["obs"][v[3] - 1] if v[3] <= len(rec["obs"]) else None,
-                                "binding": "B:code->tlc", "family": "hash"})
+                                "binding": "B:code->tlc", "family": "hash", "_pid": v[1], "_step": v[2]})
             os.remove(path)
+    _confirm_programs(res, "drivers_hash", prop, per, shards, byid, lambda b: True)
     nsteps = sum(len(p["steps"]) for p in byid.values())
     res.states += states
     res.transitions += states
